@@ -978,6 +978,10 @@ func changeListOrMapValue(ctx *Task, obj any, index []*ast.Node, val any, dtype 
 					"key type is not string", node.StartPos())
 			}
 			if idx+1 == lenIdx {
+				if ast.ContainerReaches(val, curVal) {
+					return nil, ast.Invalid, NewRunError(ctx,
+						"a list or map cannot be stored inside itself", node.StartPos())
+				}
 				curVal[key.(string)] = val
 				return val, dtype, nil
 			}
@@ -1006,6 +1010,10 @@ func changeListOrMapValue(ctx *Task, obj any, index []*ast.Node, val any, dtype 
 			}
 
 			if idx+1 == lenIdx {
+				if ast.ContainerReaches(val, curVal) {
+					return nil, ast.Invalid, NewRunError(ctx,
+						"a list or map cannot be stored inside itself", node.StartPos())
+				}
 				curVal[keyInt] = val
 				return val, dtype, nil
 			}
